@@ -2,6 +2,7 @@
 import itertools
 import math
 import numpy
+import types
 from vf.framework import harness
 
 F_AB = "quantarhei/builders/aggregate_base.py"
@@ -244,27 +245,50 @@ def coupling_from_geometry(cx, units):
 
 
 @harness("C03", "operators_survive_diagonalize",
-         quick=[dict(nmol=2, mult=1), dict(nmol=3, mult=2)], thorough=[dict(nmol=n, mult=m) for n in (2, 3) for m in (1, 2)],
+         quick=[dict(nmol=2, mult=1), dict(nmol=3, mult=2), dict(nmol=2, mult=1, symbolic="H"),
+                dict(nmol=3, mult=1, symbolic="none")],
+         thorough=[dict(nmol=n, mult=m) for n in (2, 3) for m in (1, 2)] + [dict(nmol=2, mult=m, symbolic="H") for m in (1, 2)] +
+                  [dict(nmol=3, mult=m, symbolic="none") for m in (1, 2)],
          functions=FUNCS + ["quantarhei/builders/aggregate_base.py:AggregateBase.diagonalize",
                             "quantarhei/builders/aggregate_base.py:AggregateBase.get_TransitionDipoleMoment",
                             "quantarhei/builders/aggregate_base.py:AggregateBase.get_Hamiltonian"],
          bound="dimer / trimer (mult 1, 2) with concrete energies and couplings (the aggregate's internal "
-               "diagonalisation is the real LAPACK one) and symbolic dipoles: after Aggregate.diagonalize() the "
+               "diagonalisation is the real LAPACK one) and symbolic dipoles - or (symbolic='H') symbolic energies and "
+               "coupling with concrete dipoles, the internal diagonalisation through the eigh stub - or (symbolic='none') "
+               "an entirely concrete float system built by the real numpy (memory sharing created by dtype-preserving "
+               "conversions only exists between real float arrays; this instance has no symbolic content): after Aggregate.diagonalize() the "
                "operators handed out by get_Hamiltonian() and get_TransitionDipoleMoment() are still the site-basis "
                "Frenkel ones (their storage is not shared with the arrays the aggregate rotates in place)",
          out="")
-def operators_survive_diagonalize(cx, nmol, mult):
+def operators_survive_diagonalize(cx, nmol, mult, symbolic="D"):
     g = [0.0] * nmol
-    e = [1.0 + 0.13 * i for i in range(nmol)]
-    d = [cx.real_array("d%d" % i, 3) for i in range(nmol)]
-    J = numpy.zeros((nmol, nmol))
+    if symbolic == "H":
+        e = [cx.real("e%d" % i, 1.0, 2.0) for i in range(nmol)]
+        d = [numpy.array([1.0, 0.25 * i, -0.5 * i]) for i in range(nmol)]
+        J = cx.real_symmetric("J", nmol, zero_diag=True)
+        if cx.sym:
+            from symnum import linalg
+            linalg.use_eigh(eigen_equation=False)
+    else:
+        e = [1.0 + 0.13 * i for i in range(nmol)]
+        d = [cx.real_array("d%d" % i, 3) for i in range(nmol)]
+        J = numpy.zeros((nmol, nmol))
     for i in range(nmol):
         for j in range(i + 1, nmol):
-            J[i, j] = J[j, i] = 0.02 + 0.01 * (i + j)
-    agg = make_aggregate(cx, nmol, mult, g, e, d, J)
-    H0 = numpy.array(agg.get_Hamiltonian()._data).copy()
-    D0 = numpy.array(agg.get_TransitionDipoleMoment()._data).copy()
-    agg.diagonalize()
+            if symbolic != "H":
+                J[i, j] = J[j, i] = 0.02 + 0.01 * (i + j)
+    if symbolic == "none":
+        with cx.concrete():
+            d = [numpy.array([1.0, 0.25 * i, -0.5 * i]) for i in range(nmol)]
+            agg = make_aggregate(types.SimpleNamespace(sym=False, concrete=cx.concrete), nmol, mult, g, e, d, J)
+            H0 = numpy.array(agg.get_Hamiltonian()._data).copy()
+            D0 = numpy.array(agg.get_TransitionDipoleMoment()._data).copy()
+            agg.diagonalize()
+    else:
+        agg = make_aggregate(cx, nmol, mult, g, e, d, J)
+        H0 = numpy.array(agg.get_Hamiltonian()._data).copy()
+        D0 = numpy.array(agg.get_TransitionDipoleMoment()._data).copy()
+        agg.diagonalize()
     cx.prove_eq("hamiltonian_operator_unchanged", agg.get_Hamiltonian()._data, H0, tol=1e-9)
     cx.prove_eq("dipole_operator_unchanged", agg.get_TransitionDipoleMoment()._data, D0, tol=1e-9)
     cx.prove("operators_in_site_basis", agg.get_Hamiltonian().get_current_basis() == 0 and
